@@ -17,6 +17,11 @@ pub struct Tape<'a> {
 
 /// medium-size cases are selected by the first word of the tape (about one tape in 311)
 pub fn is_medium(words: &[u32]) -> bool {
+    // OHV_NO_MEDIUM=1 switches medium cases off (experiments only; like OHV_NO_CORPUS)
+    static OFF: std::sync::OnceLock<bool> = std::sync::OnceLock::new();
+    if *OFF.get_or_init(|| std::env::var_os("OHV_NO_MEDIUM").is_some()) {
+        return false;
+    }
     words.first().map_or(false, |w| w % 311 == 7)
 }
 
